@@ -83,6 +83,135 @@ Proof.
   - destruct (is_some (lookup_all ss x)); [discriminate|]. cbn [add_all]. apply IH. exact H.
 Qed.
 
+(* --- unfolding equations (the three functions are one mutual fixpoint: `cbn` would expose the raw `fix`) *)
+Section Unfold.
+Variable g : cfg.
+Lemma ce_bin : forall ss a b, check_expr g ss (EBin a b) = check_expr g ss a && check_expr g ss b.
+Proof. reflexivity. Qed.
+Lemma ce_index : forall ss a i, check_expr g ss (EIndex a i) = check_expr g ss a && check_expr g ss i.
+Proof. reflexivity. Qed.
+Lemma ce_field : forall ss a, check_expr g ss (EField a) = check_expr g ss a.
+Proof. reflexivity. Qed.
+Lemma ce_call : forall ss f a, check_expr g ss (ECall f a) = check_expr g ss f && check_expr g ss a.
+Proof. reflexivity. Qed.
+Lemma ce_opassign : forall ss l r, check_expr g ss (EOpAssign l r) =
+  check_expr g ss l && check_expr g ss r &&
+  match l with
+  | EVar x => negb (is_const (lookup_all ss x))
+  | EIndex _ _ | EField _ => negb (chk_pathop g && root_const ss l)
+  | _ => false
+  end.
+Proof. reflexivity. Qed.
+Lemma ce_unwrap : forall ss l r, check_expr g ss (EUnwrap l r) =
+  check_expr g ss l && check_expr g ss r &&
+  match l with
+  | EVar x => negb (chk_unwrap g && is_const (lookup_all ss x))
+  | _ => false
+  end.
+Proof. reflexivity. Qed.
+Lemma ce_fn : forall ss ps b, check_expr g ss (EFn ps b) =
+  is_some (check_block g (add_all (push KFunction ss) ps false) b).
+Proof. reflexivity. Qed.
+Lemma cs_assign : forall ss c m x rhs, check_stmt g ss (SAssign c m x rhs) =
+  if c && m then None else
+  if check_expr g ss rhs then
+    if assign_checks (if m then lookup_all ss x else mapped_in_function ss x) c m x (add ss x c)
+    then Some (add ss x c) else None
+  else None.
+Proof. reflexivity. Qed.
+Lemma cs_unpack : forall ss c xs rhs, check_stmt g ss (SUnpack c xs rhs) =
+  if check_expr g ss rhs then
+    match xs with
+    | [x] => if assign_checks (first_collision ss xs) c false x (add_all ss xs c) then Some (add_all ss xs c) else None
+    | _ => if is_some (first_collision ss xs) then None else Some (add_all ss xs c)
+    end
+  else None.
+Proof. reflexivity. Qed.
+Lemma cs_reassign : forall ss l rhs, check_stmt g ss (SReassign l rhs) =
+  if check_expr g ss l && negb (root_const ss l) && check_expr g ss rhs then Some ss else None.
+Proof. reflexivity. Qed.
+Lemma cs_expr : forall ss e, check_stmt g ss (SExpr e) = if check_expr g ss e then Some ss else None.
+Proof. reflexivity. Qed.
+Lemma cs_if : forall ss c t e, check_stmt g ss (SIf c t e) =
+  if check_expr g (push KBlock ss) c then
+    match check_block g (push KBlock ss) t with
+    | None => None
+    | Some _ => match check_block g (push KBlock ss) e with None => None | Some _ => Some ss end
+    end
+  else None.
+Proof. reflexivity. Qed.
+Lemma cs_while : forall ss c b, check_stmt g ss (SWhile c b) =
+  if check_expr g (push KBlock ss) c then
+    match check_block g (push KBlock ss) b with None => None | Some _ => Some ss end
+  else None.
+Proof. reflexivity. Qed.
+Lemma cs_from : forall ss lo hi cn b, check_stmt g ss (SFrom lo hi cn b) =
+  if check_expr g (push KBlock ss) lo && check_expr g (push KBlock ss) hi then
+    match check_block g (match cn with Some x => add (push KBlock ss) x false | None => push KBlock ss end) b with
+    | None => None
+    | Some _ => match cn with
+                | None => Some ss
+                | Some x => if chk_counter g && is_const (mapped_in_function ss x) then None else Some ss
+                end
+    end
+  else None.
+Proof. reflexivity. Qed.
+Lemma cs_class : forall ss x members methods, check_stmt g ss (SClass x members methods) =
+  if is_some (lookup_local ss x) then None else
+  match check_block g (add (add_all (push KClass ss) members false) x true) methods with
+  | None => None
+  | Some _ => Some (add ss x true)
+  end.
+Proof. reflexivity. Qed.
+Lemma cb_cons : forall ss s r, check_block g ss (BCons s r) =
+  match check_stmt g ss s with None => None | Some ss' => check_block g ss' r end.
+Proof. reflexivity. Qed.
+End Unfold.
+
+Lemma ws_assign : forall ss c m x rhs, writes_stmt ss (SAssign c m x rhs) =
+  writes_expr ss rhs ++ [(ss, if m then TLex x else TFun x)].
+Proof. reflexivity. Qed.
+Lemma ws_unpack : forall ss c xs rhs, writes_stmt ss (SUnpack c xs rhs) =
+  writes_expr ss rhs ++ map (fun x => (ss, TFun x)) xs.
+Proof. reflexivity. Qed.
+Lemma ws_reassign : forall ss l rhs, writes_stmt ss (SReassign l rhs) =
+  writes_expr ss l ++ writes_expr ss rhs ++ root_target ss l.
+Proof. reflexivity. Qed.
+Lemma ws_expr : forall ss e, writes_stmt ss (SExpr e) = writes_expr ss e.
+Proof. reflexivity. Qed.
+Lemma ws_if : forall ss c t e, writes_stmt ss (SIf c t e) =
+  writes_expr (push KBlock ss) c ++ writes_block (push KBlock ss) t ++ writes_block (push KBlock ss) e.
+Proof. reflexivity. Qed.
+Lemma ws_while : forall ss c b, writes_stmt ss (SWhile c b) =
+  writes_expr (push KBlock ss) c ++ writes_block (push KBlock ss) b.
+Proof. reflexivity. Qed.
+Lemma ws_from : forall ss lo hi cn b, writes_stmt ss (SFrom lo hi cn b) =
+  writes_expr (push KBlock ss) lo ++ writes_expr (push KBlock ss) hi ++
+  writes_block (match cn with Some x => add (push KBlock ss) x false | None => push KBlock ss end) b ++
+  (match cn with Some x => [(ss, TFun x)] | None => [] end).
+Proof. reflexivity. Qed.
+Lemma ws_class : forall ss x members methods, writes_stmt ss (SClass x members methods) =
+  writes_block (add (add_all (push KClass ss) members false) x true) methods.
+Proof. reflexivity. Qed.
+Lemma wb_cons : forall ss s r, writes_block ss (BCons s r) = writes_stmt ss s ++ writes_block (effect ss s) r.
+Proof. reflexivity. Qed.
+Lemma we_bin : forall ss a b, writes_expr ss (EBin a b) = writes_expr ss a ++ writes_expr ss b.
+Proof. reflexivity. Qed.
+Lemma we_index : forall ss a b, writes_expr ss (EIndex a b) = writes_expr ss a ++ writes_expr ss b.
+Proof. reflexivity. Qed.
+Lemma we_field : forall ss a, writes_expr ss (EField a) = writes_expr ss a.
+Proof. reflexivity. Qed.
+Lemma we_call : forall ss a b, writes_expr ss (ECall a b) = writes_expr ss a ++ writes_expr ss b.
+Proof. reflexivity. Qed.
+Lemma we_opassign : forall ss l r, writes_expr ss (EOpAssign l r) =
+  writes_expr ss l ++ writes_expr ss r ++ root_target ss l.
+Proof. reflexivity. Qed.
+Lemma we_unwrap : forall ss l r, writes_expr ss (EUnwrap l r) =
+  writes_expr ss l ++ writes_expr ss r ++ root_target ss l.
+Proof. reflexivity. Qed.
+Lemma we_fn : forall ss ps b, writes_expr ss (EFn ps b) = writes_block (add_all (push KFunction ss) ps false) b.
+Proof. reflexivity. Qed.
+
 Theorem check_sound_mut :
   (forall e ss, chkE ss e = true -> Forall ok_write (writes_expr ss e)) /\
   (forall s ss ss', chkS ss s = Some ss' -> ss' = effect ss s /\ Forall ok_write (writes_stmt ss s)) /\
@@ -92,92 +221,94 @@ Proof.
   - (* ELit *) intros ss _. constructor.
   - (* EVar *) intros x ss _. constructor.
   - (* ESelf *) intros ss _. constructor.
-  - (* EBin *) intros a IHa b IHb ss H. cbn [check_expr] in H. apply andb_true_iff in H as [Ha Hb].
-    cbn [writes_expr]. apply Forall_app; split; auto.
-  - (* EIndex *) intros a IHa i IHi ss H. cbn [check_expr] in H. apply andb_true_iff in H as [Ha Hi].
-    cbn [writes_expr]. apply Forall_app; split; auto.
-  - (* EField *) intros a IHa ss H. cbn [check_expr] in H. cbn [writes_expr]. auto.
-  - (* ECall *) intros f IHf a IHa ss H. cbn [check_expr] in H. apply andb_true_iff in H as [Hf Ha].
-    cbn [writes_expr]. apply Forall_app; split; auto.
-  - (* EOpAssign *) intros l IHl r IHr ss H. cbn [check_expr] in H. apply andb3 in H as [Hl [Hr Hc]].
-    cbn [writes_expr]. apply Forall_app3; auto. apply root_target_ok. apply opassign_lhs_ok. exact Hc.
-  - (* EUnwrap *) intros l IHl r IHr ss H. cbn [check_expr] in H. apply andb3 in H as [Hl [Hr Hc]].
-    cbn [writes_expr]. apply Forall_app3; auto. apply root_target_ok. apply unwrap_lhs_ok. exact Hc.
-  - (* EFn *) intros ps b IHb ss H. cbn [check_expr] in H. cbn [writes_expr].
-    destruct (check_block cfg_fixed (add_all (push KFunction ss) ps false) b) as [ss'|] eqn:Hb; [|discriminate].
+  - (* EBin *) intros a IHa b IHb ss H. rewrite ce_bin in H. apply andb_true_iff in H as [Ha Hb].
+    rewrite we_bin. apply Forall_app; split; auto.
+  - (* EIndex *) intros a IHa i IHi ss H. rewrite ce_index in H. apply andb_true_iff in H as [Ha Hi].
+    rewrite we_index. apply Forall_app; split; auto.
+  - (* EField *) intros a IHa ss H. rewrite ce_field in H. rewrite we_field. auto.
+  - (* ECall *) intros f IHf a IHa ss H. rewrite ce_call in H. apply andb_true_iff in H as [Hf Ha].
+    rewrite we_call. apply Forall_app; split; auto.
+  - (* EOpAssign *) intros l IHl r IHr ss H. rewrite ce_opassign in H. apply andb3 in H as [Hl [Hr Hc]].
+    rewrite we_opassign. apply Forall_app3; auto. apply root_target_ok. apply opassign_lhs_ok. exact Hc.
+  - (* EUnwrap *) intros l IHl r IHr ss H. rewrite ce_unwrap in H. apply andb3 in H as [Hl [Hr Hc]].
+    rewrite we_unwrap. apply Forall_app3; auto. apply root_target_ok. apply unwrap_lhs_ok. exact Hc.
+  - (* EFn *) intros ps b IHb ss. rewrite ce_fn, we_fn.
+    destruct (check_block cfg_fixed (add_all (push KFunction ss) ps false) b) as [ss'|] eqn:Hb;
+      unfold is_some; intro H; [|discriminate].
     eapply IHb. exact Hb.
-  - (* SAssign *) intros c m x rhs IHrhs ss ss' H. cbn [check_stmt] in H.
+  - (* SAssign *) intros c m x rhs IHrhs ss ss'. rewrite cs_assign.
     destruct (c && m); [discriminate|].
     destruct (check_expr cfg_fixed ss rhs) eqn:Hr; [|discriminate].
     destruct (assign_checks (if m then lookup_all ss x else mapped_in_function ss x) c m x (add ss x c)) eqn:Ha;
       [|discriminate].
-    inversion H; subst ss'. split; [reflexivity|].
-    cbn [writes_stmt]. apply Forall_app; split; [auto|].
+    intro H. inversion H; subst ss'. split; [reflexivity|].
+    rewrite ws_assign. apply Forall_app; split; [auto|].
     constructor; [|constructor]. unfold ok_write. cbn [fst snd].
     apply assign_checks_not_const in Ha. destruct m; cbn [resolves_const]; exact Ha.
-  - (* SUnpack *) intros c xs rhs IHrhs ss ss' H. cbn [check_stmt] in H.
+  - (* SUnpack *) intros c xs rhs IHrhs ss ss'. rewrite cs_unpack.
     destruct (check_expr cfg_fixed ss rhs) eqn:Hr; [|discriminate].
-    cbn [writes_stmt effect].
+    intro H. rewrite ws_unpack. cbn [effect].
     assert (Hgoal : ss' = add_all ss xs c /\
                     (forall x, In x xs -> is_const (mapped_in_function ss x) = false)).
     { destruct xs as [|x [|y r]].
-      - destruct (is_some (first_collision ss [])) eqn:Hc; [discriminate|]. inversion H. split; [reflexivity|].
-        intros x [].
-      - destruct (assign_checks (first_collision ss [x]) c false x (add_all ss [x] c)) eqn:Ha; [|discriminate].
-        inversion H. split; [reflexivity|]. intros z [<-|[]].
+      - revert H. destruct (is_some (first_collision ss [])) eqn:Hc; [discriminate|]. intro H. inversion H.
+        split; [reflexivity|]. intros x [].
+      - revert H. destruct (assign_checks (first_collision ss [x]) c false x (add_all ss [x] c)) eqn:Ha; [|discriminate].
+        intro H. inversion H. split; [reflexivity|]. intros z [<-|[]].
         apply assign_checks_not_const in Ha. cbn [first_collision] in Ha.
         destruct (mapped_in_function ss x) as [k|]; [exact Ha|reflexivity].
-      - destruct (is_some (first_collision ss (x :: y :: r))) eqn:Hc; [discriminate|]. inversion H.
+      - revert H. destruct (is_some (first_collision ss (x :: y :: r))) eqn:Hc; [discriminate|]. intro H. inversion H.
         split; [reflexivity|]. intros z Hz. apply is_some_false in Hc.
         rewrite (first_collision_none _ _ Hc z Hz). reflexivity. }
     destruct Hgoal as [-> Hall]. split; [reflexivity|].
     apply Forall_app; split; [auto|]. apply unpack_targets_ok. exact Hall.
-  - (* SReassign *) intros l IHl rhs IHrhs ss ss' H. cbn [check_stmt] in H.
+  - (* SReassign *) intros l IHl rhs IHrhs ss ss'. rewrite cs_reassign.
     destruct (check_expr cfg_fixed ss l && negb (root_const ss l) && check_expr cfg_fixed ss rhs) eqn:Hc; [|discriminate].
-    inversion H; subst ss'. split; [reflexivity|]. apply andb3 in Hc as [Hl [Hn Hr]].
-    cbn [writes_stmt]. apply Forall_app3; auto. apply root_target_ok. apply negb_true_iff in Hn. exact Hn.
-  - (* SExpr *) intros e IHe ss ss' H. cbn [check_stmt] in H.
-    destruct (check_expr cfg_fixed ss e) eqn:He; [|discriminate]. inversion H; subst ss'.
-    split; [reflexivity|]. cbn [writes_stmt]. auto.
-  - (* SIf *) intros c IHc t IHt e IHe ss ss' H. cbn [check_stmt] in H.
+    intro H. inversion H; subst ss'. split; [reflexivity|]. apply andb3 in Hc as [Hl [Hn Hr]].
+    rewrite ws_reassign. apply Forall_app3; auto. apply root_target_ok. apply negb_true_iff in Hn. exact Hn.
+  - (* SExpr *) intros e IHe ss ss'. rewrite cs_expr.
+    destruct (check_expr cfg_fixed ss e) eqn:He; [|discriminate]. intro H. inversion H; subst ss'.
+    split; [reflexivity|]. rewrite ws_expr. auto.
+  - (* SIf *) intros c IHc t IHt e IHe ss ss'. rewrite cs_if.
     destruct (check_expr cfg_fixed (push KBlock ss) c) eqn:Hc; [|discriminate].
     destruct (check_block cfg_fixed (push KBlock ss) t) as [s1|] eqn:Ht; [|discriminate].
     destruct (check_block cfg_fixed (push KBlock ss) e) as [s2|] eqn:He; [|discriminate].
-    inversion H; subst ss'. split; [reflexivity|]. cbn [writes_stmt].
+    intro H. inversion H; subst ss'. split; [reflexivity|]. rewrite ws_if.
     apply Forall_app3; eauto.
-  - (* SWhile *) intros c IHc b IHb ss ss' H. cbn [check_stmt] in H.
+  - (* SWhile *) intros c IHc b IHb ss ss'. rewrite cs_while.
     destruct (check_expr cfg_fixed (push KBlock ss) c) eqn:Hc; [|discriminate].
     destruct (check_block cfg_fixed (push KBlock ss) b) as [s1|] eqn:Hb; [|discriminate].
-    inversion H; subst ss'. split; [reflexivity|]. cbn [writes_stmt].
+    intro H. inversion H; subst ss'. split; [reflexivity|]. rewrite ws_while.
     apply Forall_app; split; eauto.
-  - (* SFrom *) intros lo IHlo hi IHhi cn b IHb ss ss' H. cbn [check_stmt] in H.
+  - (* SFrom *) intros lo IHlo hi IHhi cn b IHb ss ss'. rewrite cs_from.
     destruct (check_expr cfg_fixed (push KBlock ss) lo && check_expr cfg_fixed (push KBlock ss) hi) eqn:Hlh; [|discriminate].
     apply andb_true_iff in Hlh as [Hlo Hhi].
     destruct (check_block cfg_fixed
                 (match cn with Some x => add (push KBlock ss) x false | None => push KBlock ss end) b)
       as [s1|] eqn:Hb; [|discriminate].
+    intro H.
     assert (Hcn : ss' = ss /\ Forall ok_write (match cn with Some x => [(ss, TFun x)] | None => [] end)).
     { destruct cn as [x|].
-      - cbn [chk_counter cfg_fixed andb] in H.
-        destruct (is_const (mapped_in_function ss x)) eqn:Hk; [discriminate|]. inversion H. split; [reflexivity|].
-        constructor; [exact Hk|constructor].
-      - inversion H. split; [reflexivity|constructor]. }
-    destruct Hcn as [-> Hcn]. split; [reflexivity|]. cbn [writes_stmt].
+      - cbn [chk_counter cfg_fixed andb] in H. revert H.
+        destruct (is_const (mapped_in_function ss x)) eqn:Hk; [discriminate|]. intro H. injection H as <-.
+        split; [reflexivity|]. constructor; [exact Hk|constructor].
+      - injection H as <-. split; [reflexivity|constructor]. }
+    destruct Hcn as [-> Hcn]. split; [reflexivity|]. rewrite ws_from.
     apply Forall_app; split; [auto|]. apply Forall_app3; eauto.
-  - (* SClass *) intros x members methods IHm ss ss' H. cbn [check_stmt] in H.
+  - (* SClass *) intros x members methods IHm ss ss'. rewrite cs_class.
     destruct (is_some (lookup_local ss x)); [discriminate|].
     destruct (check_block cfg_fixed (add (add_all (push KClass ss) members false) x true) methods) as [s1|] eqn:Hm;
       [|discriminate].
-    inversion H; subst ss'. split; [reflexivity|]. cbn [writes_stmt]. eauto.
-  - (* SImport *) intros m ss ss' H. cbn [check_stmt] in H.
-    destruct (is_some (lookup_all ss m)); [discriminate|]. inversion H; subst ss'.
+    intro H. inversion H; subst ss'. split; [reflexivity|]. rewrite ws_class. eauto.
+  - (* SImport *) intros m ss ss'. cbn [check_stmt].
+    destruct (is_some (lookup_all ss m)); [discriminate|]. intro H. inversion H; subst ss'.
     split; [reflexivity|constructor].
   - (* SImportNames *) intros xs ss ss' H. cbn [check_stmt] in H. apply import_names_effect in H.
     split; [exact H|constructor].
   - (* BNil *) intros ss ss' _. constructor.
-  - (* BCons *) intros s IHs r IHr ss ss' H. cbn [check_block] in H.
-    destruct (check_stmt cfg_fixed ss s) as [s1|] eqn:Hs; [|discriminate].
-    destruct (IHs _ _ Hs) as [-> Hw]. cbn [writes_block]. apply Forall_app; split; [exact Hw|eauto].
+  - (* BCons *) intros s IHs r IHr ss ss'. rewrite cb_cons.
+    destruct (check_stmt cfg_fixed ss s) as [s1|] eqn:Hs; [|discriminate]. intro H.
+    destruct (IHs _ _ Hs) as [-> Hw]. rewrite wb_cons. apply Forall_app; split; [exact Hw|eauto].
 Qed.
 
 (* C10, syntactic half: an accepted program contains no write form -- `=`, typed `=`, re-declaration,
@@ -186,8 +317,8 @@ Qed.
 Theorem const_never_written : forall p : block,
   check cfg_fixed p = true -> NoConstWrite p.
 Proof.
-  intros p H. unfold check in H. unfold NoConstWrite.
-  destruct (check_block cfg_fixed file_scope p) as [ss'|] eqn:Hb; [|discriminate].
+  intros p. unfold check, NoConstWrite.
+  destruct (check_block cfg_fixed file_scope p) as [ss'|] eqn:Hb; unfold is_some; intro H; [|discriminate].
   destruct check_sound_mut as [_ [_ HB]]. eapply HB. exact Hb.
 Qed.
 
